@@ -446,8 +446,10 @@ func genCase(r *hx.Rand, tier string) caseT {
 		var body any = genObject(r, c.T, 0)
 		if r.Chance(1, 40) {
 			d := r.Range(3, 12)
-			if tier == "thorough" || r.Chance(1, 4) {
-				d = r.Range(97, 104)
+			if r.Chance(1, 4) {
+				d = r.Range(97, 104) // across the recursion limit
+			} else if tier == "thorough" && r.Chance(1, 4) {
+				d = r.Range(13, 96)
 			}
 			body = deepBody(r, d)
 		}
